@@ -1517,6 +1517,13 @@ M('C19', 'original defect: IrregularLattice._ordering_irreg leaves the temporary
   "            if perm_backup is not None:\n                self._perm = perm_backup  # only temporarily: `ordering` does not change the lattice\n", "",
   'GEOM-query-pure')
 
+M('C20', 'original defect: Hdf5Storage.save does not overwrite an existing key', CA,
+  "        if key in self.h5gr:\n            del self.h5gr[key]  # overwrite like the other storage classes\n", "",
+  'ST-overwrite')
+M('C20', 'original defect: Hdf5Storage.subcontainer is not registered with its parent', CA,
+  "        res = Hdf5Storage(self.h5gr.create_group(name))\n        self._subcontainers.append(res)\n", "        res = Hdf5Storage(self.h5gr.create_group(name))\n",
+  'ST-sub-registered')
+
 # ---------------------------------------------------------------- C16 / C19
 M('C16', 'GMRES restart: relative residual norm used for normalisation (round-3 seed b)', KRY,
   """        self.total_error.append([npc.norm(self.rs[-1]) / self.b_norm])
